@@ -32,6 +32,7 @@ OpsN == {"N"}
 OpsNH == {"N", "H"}
 Mps2   == G("mps2",   "mps",  <<2, 3>>,       Chain(2))
 GeomsCover    == <<Mps2, Mpo2>>
+GeomsOne      == <<Mps3>>
 Gids1 == {1}
 GeomsSwap     == <<Mps4>>
 GeomsMpo      == <<Mpo3>>
